@@ -9,6 +9,7 @@ From M Require ExprCap.
 From M Require InputInv.
 From M Require ArrayReaders.
 From M Require ExprScenario.
+From M Require Tie.
 From M Require Dispatch.
 From M Require ExprModel.
 From M Require Framing2.
@@ -241,4 +242,19 @@ Theorem C01_chan_entry_capacity :
 Proof. exact (@ExprScenario.chan_entry_capacity). Qed.
 End T_chan_entry_capacity.
 Definition C01_chan_entry_capacity := @T_chan_entry_capacity.C01_chan_entry_capacity.
+
+Module T_tie_char_classes. Import Tie. Local Open Scope bool_scope. Local Open Scope Z_scope.
+Local Open Scope Z_scope.
+Theorem C01_tie_char_classes :
+  same_class LexModel.isws Generated.gen_cc_isws = true /\ same_class LexModel.isbdigit Generated.gen_cc_isbdigit = true /\
+  same_class LexModel.isqdigit Generated.gen_cc_isqdigit = true /\ same_class LexModel.isplusmn Generated.gen_cc_isplusmn = true /\
+  same_class LexModel.isH Generated.gen_cc_isH = true /\ same_class LexModel.isB Generated.gen_cc_isB = true /\
+  same_class LexModel.isQ Generated.gen_cc_isQ = true /\ same_class LexModel.isE Generated.gen_cc_isE = true /\
+  same_class LexModel.isascii7 Generated.gen_cc_isascii7 = true /\ same_class LexModel.isexpr Generated.gen_cc_isexpr = true /\
+  same_class (fun c => LexModel.isdigit c && negb (LexModel.ischr 48%N c)) Generated.gen_cc_isnzdigit = true /\
+  same_class LexModel.isdigit Generated.gen_cc_isdigit = true /\ same_class LexModel.isalpha Generated.gen_cc_isalpha = true /\
+  same_class LexModel.isalnum Generated.gen_cc_isalnum = true /\ same_class LexModel.isxdigit Generated.gen_cc_isxdigit = true.
+Proof. exact (@Tie.tie_char_classes). Qed.
+End T_tie_char_classes.
+Definition C01_tie_char_classes := @T_tie_char_classes.C01_tie_char_classes.
 
